@@ -21,10 +21,10 @@ echo "== demo with the change"
 cargo test --offline --test seeded_demo > /tmp/ingest_$1_demo1.log 2>&1; with_rc=$?
 tail -3 /tmp/ingest_$1_demo1.log
 echo "== demo without the change"
-git stash push -q -- src
+git apply -R $D/patch.diff
 cargo test --offline --test seeded_demo > /tmp/ingest_$1_demo0.log 2>&1; without_rc=$?
 tail -3 /tmp/ingest_$1_demo0.log
-git stash pop -q
+git apply $D/patch.diff
 echo "suite_rc=$suite_rc demo_with_change_rc=$with_rc demo_without_change_rc=$without_rc"
 cat > $D/verify.txt <<EOT
 existing suite with the change (cargo test --offline --no-fail-fast, demo excluded): exit $suite_rc
